@@ -8,10 +8,12 @@
 (*   IndInvInit   Init => IndInv                                           *)
 (*   IndInvStep   IndInv /\ [Next]_vars => IndInv'                         *)
 (*   IndInvSafe   IndInv => InvBoundary /\ InvDone /\ InvPerm              *)
+(*   IndInvRows   IndInv => InvRowsIntact   (via SigmaIsRho: the flat      *)
+(*                exchange moves whole rows)                               *)
 (*   Correct      Init /\ [][Next]_vars => [](InvBoundary /\ InvDone /\    *)
-(*                InvPerm)                                                 *)
-(* (InvRowsIntact / InvTrainNow for all n are proved pointwise by Apalache *)
-(* on KFoldIdx.tla; they are not re-proved here.)                          *)
+(*                InvPerm /\ InvRowsIntact)                                *)
+(* (InvTrainNow for all n is proved pointwise by Apalache on KFoldIdx.tla; *)
+(* it is not re-proved here.)                                              *)
 (***************************************************************************)
 EXTENDS KFoldInd, TLAPS
 
@@ -358,13 +360,235 @@ THEOREM IndInvSafe == IndInv => InvBoundary /\ InvDone /\ InvPerm
 <1> QED
   BY <1>2, <1>3
 
-THEOREM Correct == Init /\ [][Next]_vars => [](InvBoundary /\ InvDone /\ InvPerm)
+-----------------------------------------------------------------------------
+(* InvRowsIntact for all n: rows move as a whole.  Rho is the block exchange on rows (as in         *)
+(* KFoldIdx.tla); the flat exchange Sigma maps cell c of row q to cell c of row Rho(q).             *)
+Rho(r, idx, bs) ==
+  IF idx = 0 THEN r
+  ELSE IF r < bs THEN r + idx * bs
+  ELSE IF r >= idx * bs /\ r < idx * bs + bs THEN r - idx * bs
+  ELSE r
+
+LEMMA MulDistL == \A a, b, c \in Nat : (a + b) * c = a * c + b * c
+  OBVIOUS
+LEMMA MulComm == \A a, b \in Nat : a * b = b * a
+  OBVIOUS
+
+LEMMA RhoRange ==
+  ASSUME NEW rows \in Nat, NEW idx \in Nat, NEW bs \in Nat, (idx + 1) * bs <= rows,
+         NEW q \in 0..(rows - 1)
+  PROVE  Rho(q, idx, bs) \in 0..(rows - 1)
+<1>1. idx * bs \in Nat /\ idx * bs + bs <= rows
+  BY MulNat, MulSucc, MulComm
+<1> DEFINE ib == idx * bs
+<1>2. Rho(q, idx, bs) = IF idx = 0 THEN q ELSE IF q < bs THEN q + ib
+                        ELSE IF q >= ib /\ q < ib + bs THEN q - ib ELSE q
+  BY DEF Rho
+<1> HIDE DEF ib
+<1> QED
+  BY <1>1, <1>2 DEF ib
+
+LEMMA SigmaIsRho ==
+  ASSUME NEW rows \in Nat, NEW idx \in Nat, NEW bs \in Nat, NEW w \in Nat, (idx + 1) * bs <= rows,
+         NEW q \in 0..(rows - 1), NEW c \in 1..w
+  PROVE  Sigma(q * w + c, idx, bs * w) = Rho(q, idx, bs) * w + c
+<1> DEFINE len == bs * w
+           ib == idx * bs
+           start == len * idx
+           qw == q * w
+           p == qw + c
+<1>1. q \in Nat /\ c \in Nat /\ c >= 1 /\ c <= w
+  OBVIOUS
+<1>2. len \in Nat /\ start \in Nat /\ qw \in Nat /\ ib \in Nat /\ ib * w \in Nat
+  BY <1>1, MulNat
+<1>3. start = ib * w
+  BY MulAssoc, MulComm
+<1>4. Sigma(p, idx, len) =
+        IF idx = 0 THEN p
+        ELSE IF p <= len THEN start + p
+        ELSE IF p > start /\ p <= start + len THEN p - start
+        ELSE p
+  BY DEF Sigma
+<1>5. Rho(q, idx, bs) = IF idx = 0 THEN q ELSE IF q < bs THEN q + ib
+                        ELSE IF q >= ib /\ q < ib + bs THEN q - ib ELSE q
+  BY DEF Rho
+<1>6. (q + 1) * w = qw + w
+  BY <1>1, MulDistL
+<1>7. (ib + bs) * w = ib * w + len
+  BY <1>2, MulDistL
+<1> HIDE DEF len, ib, start, qw, p
+<1>8. p = qw + c
+  BY DEF p
+<1>9. CASE idx = 0
+  BY <1>9, <1>4, <1>5, <1>8 DEF qw, len
+<1>10. CASE idx # 0 /\ q < bs
+  <2>1. (q + 1) * w <= bs * w
+    BY <1>1, <1>10, MulMono
+  <2>2. p <= len
+    BY <2>1, <1>6, <1>8, <1>1, <1>2 DEF len
+  <2>3. Sigma(p, idx, len) = start + p
+    BY <1>10, <2>2, <1>4
+  <2>4. Rho(q, idx, bs) = q + ib
+    BY <1>10, <1>5
+  <2>5. (q + ib) * w = qw + ib * w
+    BY <1>1, <1>2, MulDistL DEF qw
+  <2>6. Sigma(p, idx, len) = Rho(q, idx, bs) * w + c
+    BY <2>3, <2>4, <2>5, <1>3, <1>8, <1>2, <1>1
+  <2> QED
+    BY <2>6 DEF p, qw, len
+<1>11. CASE idx # 0 /\ q >= bs
+  <2>1. bs * w <= q * w
+    BY <1>1, <1>11, MulMono
+  <2>2. ~(p <= len)
+    BY <2>1, <1>8, <1>1, <1>2 DEF len, qw
+  <2>3. CASE q >= ib /\ q < ib + bs
+    <3>1. ib * w <= q * w
+      BY <2>3, <1>1, <1>2, MulMono
+    <3>2. p > start
+      BY <3>1, <1>3, <1>8, <1>1, <1>2 DEF qw
+    <3>3. (q + 1) * w <= (ib + bs) * w
+      BY <2>3, <1>1, <1>2, MulMono
+    <3>4. p <= start + len
+      BY <3>3, <1>6, <1>7, <1>3, <1>8, <1>1, <1>2
+    <3>5. Sigma(p, idx, len) = p - start
+      BY <1>11, <2>2, <3>2, <3>4, <1>4
+    <3>6. Rho(q, idx, bs) = q - ib
+      BY <1>11, <2>3, <1>5
+    <3>7. q - ib \in Nat /\ (q - ib) + ib = q
+      BY <2>3, <1>1, <1>2
+    <3>8. qw = (q - ib) * w + ib * w
+      BY <3>7, <1>2, MulDistL DEF qw
+    <3>9. (q - ib) * w \in Nat
+      BY <3>7, MulNat
+    <3>10. Sigma(p, idx, len) = Rho(q, idx, bs) * w + c
+      BY <3>5, <3>6, <3>8, <3>9, <1>3, <1>8, <1>2, <1>1
+    <3> QED
+      BY <3>10 DEF p, qw, len
+  <2>4. CASE q < ib
+    <3>1. (q + 1) * w <= ib * w
+      BY <2>4, <1>1, <1>2, MulMono
+    <3>2. p <= start /\ p \in Nat /\ start \in Nat
+      <4>1. p <= qw + w
+        BY <1>8, <1>1, <1>2
+      <4>2. qw + w <= start
+        BY <3>1, <1>6, <1>3
+      <4>3. p \in Nat /\ qw + w \in Nat /\ start \in Nat
+        BY <1>8, <1>1, <1>2
+      <4> QED
+        BY <4>1, <4>2, <4>3
+    <3>3. Sigma(p, idx, len) = p
+      BY <1>11, <2>2, <3>2, <1>4
+    <3>4. Rho(q, idx, bs) = q
+      BY <1>11, <2>4, <1>5, <1>2
+    <3> QED
+      BY <3>3, <3>4 DEF p, qw, len
+  <2>5. CASE q >= ib + bs
+    <3>1. (ib + bs) * w <= q * w
+      BY <2>5, <1>1, <1>2, MulMono
+    <3>2. ~(p <= start + len)
+      BY <3>1, <1>7, <1>3, <1>8, <1>1, <1>2 DEF qw
+    <3>3. Sigma(p, idx, len) = p
+      BY <1>11, <2>2, <3>2, <1>4
+    <3>4. Rho(q, idx, bs) = q
+      BY <1>11, <2>5, <1>5, <1>2
+    <3> QED
+      BY <3>3, <3>4 DEF p, qw, len
+  <2> QED
+    BY <2>3, <2>4, <2>5, <1>1, <1>2
+<1> QED
+  BY <1>9, <1>10, <1>11, <1>1
+
+THEOREM IndInvRows == IndInv => InvRowsIntact
+<1> SUFFICES ASSUME IndInv PROVE InvRowsIntact
+  OBVIOUS
+<1> USE ConstAssump
+<1>f. /\ n \in Nat /\ k \in Nat /\ f \in Nat /\ t \in Nat /\ i \in Nat /\ W \in Nat /\ Fs \in Nat
+      /\ n >= 2 /\ k >= 2 /\ k <= n /\ f >= 1 /\ W >= 1 /\ Fs >= 1
+      /\ n * f \in Nat /\ n * W \in Nat
+  BY Facts
+<1>g. n <= MaxN /\ f <= MaxF /\ W <= MaxW /\ MaxW \in Nat
+  BY DEF IndInv, W, Tw, MaxW
+<1>b. /\ RBufAt = IF Boundary THEN Id(n * f) ELSE Moved(n * f, Fs * f)
+      /\ TBufAt = IF Boundary THEN Id(n * W) ELSE Moved(n * W, Fs * W)
+  BY BufForms
+<1>c. rbuf = RBufAt /\ tbuf = TBufAt
+  BY DEF IndInv
+\* every cell position of a buffer of row width w lies inside the buffer
+<1>d. ASSUME NEW w \in Nat, w >= 1, NEW q \in 0..(n - 1), NEW c \in 1..w
+      PROVE  q * w + c \in 1..(n * w)
+  <2>1. (q + 1) * w <= n * w
+    BY <1>f, MulMono
+  <2>2. (q + 1) * w = q * w + w /\ q * w \in Nat
+    BY MulDistL, MulNat
+  <2> QED
+    BY <2>1, <2>2, <1>f
+<1> SUFFICES ASSUME NEW q \in 0..(MaxN - 1), q < n
+             PROVE  \E rho \in 0..(MaxN - 1) : rho < n /\ RowHolds(q, rho)
+  BY DEF InvRowsIntact
+<1>1. CASE Boundary
+  <2>1. rbuf = Id(n * f) /\ tbuf = Id(n * W)
+    BY <1>1, <1>b, <1>c
+  <2>2. \A c \in 1..f : rbuf[q * f + c] = q * f + c
+    BY <2>1, <1>d, <1>f DEF Id
+  <2>3. \A c \in 1..W : tbuf[q * W + c] = q * W + c
+    BY <2>1, <1>d, <1>f DEF Id
+  <2>4. RowHolds(q, q)
+    BY <2>2, <2>3, <1>f, <1>g DEF RowHolds, Tag
+  <2> QED
+    BY <2>4
+<1>2. CASE ~Boundary
+  <2>1. rbuf = Moved(n * f, Fs * f) /\ tbuf = Moved(n * W, Fs * W)
+    BY <1>2, <1>b, <1>c
+  <2>2. i < k
+    BY <1>2 DEF IndInv, Boundary
+  <2>3. (i + 1) * Fs <= n
+    <3>1. (i + 1) * (Fs * 1) <= n * 1
+      BY <2>2, <1>f, FoldFits DEF Fs
+    <3> QED
+      BY <3>1, <1>f
+  <2> DEFINE rho == Rho(q, i, Fs)
+  <2>4. rho \in 0..(n - 1)
+    BY <2>3, <1>f, RhoRange
+  <2>5. \A c \in 1..f : rbuf[q * f + c] = rho * f + c
+    <3> TAKE c \in 1..f
+    <3>1. Sigma(q * f + c, i, Fs * f) = rho * f + c
+      BY <2>3, <1>f, SigmaIsRho
+    <3>2. q * f + c \in 1..(n * f)
+      BY <1>d, <1>f
+    <3> QED
+      BY <2>1, <3>1, <3>2 DEF Moved
+  <2>6. \A c \in 1..W : tbuf[q * W + c] = rho * W + c
+    <3> TAKE c \in 1..W
+    <3>1. Sigma(q * W + c, i, Fs * W) = rho * W + c
+      BY <2>3, <1>f, SigmaIsRho
+    <3>2. q * W + c \in 1..(n * W)
+      BY <1>d, <1>f
+    <3> QED
+      BY <2>1, <3>1, <3>2 DEF Moved
+  <2> HIDE DEF rho
+  <2>7. RowHolds(q, rho)
+    <3>1. rho \in Nat /\ rho * f \in Nat /\ rho * W \in Nat
+      BY <2>4, <1>f, MulNat
+    <3>2. \A c \in 1..MaxF : c <= f => rbuf[q * f + c] = Tag(rho, c - 1, f)
+      BY <2>5, <3>1, <1>f, <1>g DEF Tag
+    <3>3. \A c \in 1..MaxW : c <= W => tbuf[q * W + c] = Tag(rho, c - 1, W)
+      BY <2>6, <3>1, <1>f, <1>g DEF Tag
+    <3> QED
+      BY <3>2, <3>3 DEF RowHolds
+  <2>8. rho \in 0..(MaxN - 1) /\ rho < n
+    BY <2>4, <1>f, <1>g
+  <2> QED
+    BY <2>7, <2>8
+<1> QED
+  BY <1>1, <1>2
+
+THEOREM Correct == Init /\ [][Next]_vars => [](InvBoundary /\ InvDone /\ InvPerm /\ InvRowsIntact)
 <1>1. Init => IndInv
   BY IndInvInit
 <1>2. IndInv /\ [Next]_vars => IndInv'
   BY IndInvStep
-<1>3. IndInv => InvBoundary /\ InvDone /\ InvPerm
-  BY IndInvSafe
+<1>3. IndInv => InvBoundary /\ InvDone /\ InvPerm /\ InvRowsIntact
+  BY IndInvSafe, IndInvRows
 <1> QED
   BY <1>1, <1>2, <1>3, PTL
 =============================================================================
